@@ -37,26 +37,39 @@ class SymArray:
 
     def __getitem__(self, i):
         d = self.data
+        if (i is Ellipsis or i == ()) :
+            return d if not isinstance(d, list) else self
         for k in (i if isinstance(i, tuple) else (i,)):
             self._check(d, k)
             d = d[k]
         return SymArray(d) if isinstance(d, list) else d
 
     def __setitem__(self, i, v):
+        if i is Ellipsis or i == ():
+            # out[...] = value : every entry (a 0-dimensional array: the entry)
+            self._narrowing(v)
+            if isinstance(self.data, list):
+                raise AnalysisError('a store into a whole multi-dimensional array has no model in the symbolic domain')
+            self.data = v.data if isinstance(v, SymArray) else v
+            return
         idx = i if isinstance(i, tuple) else (i,)
         d = self.data
         for k in idx[:-1]:
             self._check(d, k)
             d = d[k]
         self._check(d, idx[-1])
+        self._narrowing(v)
+        d[idx[-1]] = v
+
+    def _narrowing(self, v):
         if self.inherits:
-            for leaf in (sp.flatten(v.tolist()) if isinstance(v, SymArray) else [v]):
+            vals = v.tolist() if isinstance(v, SymArray) else v
+            for leaf in (sp.flatten(vals) if isinstance(vals, list) else [vals]):
                 lf = sp.sympify(leaf)
                 if lf.is_integer is not True and not (lf.is_Float and float(lf) == int(lf)):
                     ALLOC_EVENTS.append(f'{self.inherits}: the value {str(leaf)[:60]} is stored into an array that has the dtype of the evaluation point (for integer-valued '
                                         f'points the fractional part is cut off)')
                     break
-        d[idx[-1]] = v
 
     def tolist(self):
         def conv(d):
@@ -177,6 +190,19 @@ class FakeNp:
             return 2 if self.array_mode else 1
         return 1 if (self.array_mode and isinstance(x, sp.Basic) and not x.is_number) else 0
 
+    def size(self, x, axis=None):
+        # number of entries: of a point the number of coordinates, of a coordinates x points matrix the product (7 points, see C14Domain._len)
+        if axis is not None:
+            raise AnalysisError('np.size with an axis has no model in the symbolic domain')
+        if isinstance(x, (list, tuple)):
+            return len(x) * (7 if self.array_mode else 1)
+        if isinstance(x, SymArray):
+            n = 1
+            for k_ in x.shape:
+                n *= k_
+            return n
+        return 7 if (self.array_mode and isinstance(x, sp.Basic) and not x.is_number) else 1
+
     def ones(self, shape, *a, **k):
         if self.array_mode:
             n = shape[0] if isinstance(shape, (list, tuple)) and shape else shape
@@ -190,10 +216,13 @@ class FakeNp:
         return SymArray.zeros(shape)
 
     def _like(self, name, x, dtype=None, **k):
-        if k.get('shape') is not None or not isinstance(x, (list, tuple, SymArray)):
+        if k.get('shape') is not None or not isinstance(x, (list, tuple, SymArray, sp.Basic, int, float)):
             raise AnalysisError(f'np.{name} of {type(x).__name__} (or with shape=) has no model in the symbolic domain')
-        shape = SymArray(list(x)).shape if not isinstance(x, SymArray) else x.shape
-        r = SymArray.zeros(shape)
+        if isinstance(x, (sp.Basic, int, float)):
+            r = SymArray(sp.Integer(0))          # a 0-dimensional array (one coordinate of the point; in array mode: one entry per evaluation point, all alike)
+        else:
+            shape = SymArray(list(x)).shape if not isinstance(x, SymArray) else x.shape
+            r = SymArray.zeros(shape)
         if dtype is None:
             r.inherits = f'np.{name}(<evaluation point>)'
         return r
@@ -532,6 +561,29 @@ def purity(run, repo, modname, mod, families):
             inst = it.instantiate(cr, [], dict(kwargs))
         except (Raised, Fork):
             continue
+        # (c) the lazily inferred dimension is the number of coordinates whatever the object sees first: evaluated on a whole matrix of points (array mode) and then
+        # asked for a gradient at one point, the object answers as a fresh one does
+        if 'dimension' in params:
+            it2 = Interp(repo, libs=make_libs(False), domain=C14Domain(False))
+            cr2 = it2.class_ref(modname, cname)
+            it2.stack.append(Frame(init, mod, {}))
+            kw2 = dict(kwargs)
+            kw2['dimension'] = None
+            try:
+                inst2 = it2.instantiate(cr2, [], kw2)
+                np2 = it2.libs['numpy']
+                np2.array_mode = it2.domain.array_mode = True
+                it2.call_fn(cr2.find('__call__'), [list(xs1)], {}, self_obj=inst2)
+                np2.array_mode = it2.domain.array_mode = False
+                dim_seen = inst2._attrs.get('dimension')
+                ok = dim_seen is None or dim_seen == DIM
+                run.oblige('D4', (cname, 'dimension after an array call'), ok)
+                if not ok:
+                    fnc = cr2.find('check_call_input') or cr2.find('__call__')
+                    run.add(Finding('C14', 'D4', f'{modname}::{fnc.cls}.{fnc.name}', 'lazily inferred dimension', f'{cname}: after a first evaluation on a coordinates x points matrix ({DIM} x 7) the object '
+                                    f'believes its dimension is {dim_seen} (the number of coordinates is {DIM}): later derivatives at a single point raise or have the wrong length', fnc.file, fnc.node.lineno))
+            except (Raised, Fork, AnalysisError):
+                pass            # (families whose __call__ cannot be interpreted in array mode are decided by D3)
         for meth in ('gradient', 'hessian'):
             fn = cr.find(meth)
             if fn is None:
@@ -656,6 +708,13 @@ def check_one(run, repo, cref, cname, label, index, x, call_method):
                         return
                     raise AnalysisError(f'{label}.__call__ raised {r}')
                 f = sp.sympify(f)
+                if isinstance(f, (sp.logic.boolalg.BooleanFunction, sp.core.relational.Relational, sp.logic.boolalg.BooleanAtom)):
+                    # a truth value is not a function value: arithmetic on boolean arrays is logical (True + True = True), so sums of such evaluations saturate
+                    fn = cref.find('__call__')
+                    run.oblige('D1', (label, '__call__ is numeric'), False)
+                    run.add(Finding('C14', 'D1', f'{modname}::{cname}.__call__', f'{cname} returns a truth value', f'{label}: __call__ returns the comparison {f} itself, not the number 0 / 1: on '
+                                    f'arrays of points this is a boolean array, and products / sums of such evaluations (Gram matrices) are logical operations', fn.file, fn.node.lineno))
+                    return
                 # D3: array branch gives the same expression
                 try:
                     fa = sp.sympify(call_method('__call__', list(x), array_mode=True))
